@@ -237,6 +237,11 @@ func runShard(ctx context.Context, bin, pkgDir, id, tier string, seed int64, idx
 		"VERIF_SHARD="+strconv.Itoa(idx), "VERIF_NSHARDS="+strconv.Itoa(n),
 		"VERIF_OUT="+filepath.Join(outDir, fmt.Sprintf("part-%d.json", idx)),
 		"VERIF_DIR="+verifDir, "VERIF_BUDGET_S="+strconv.Itoa(int(timeout.Seconds())), "VERIF_REPLAY_DIR="+replayBaseDir)
+	if os.Getenv("GOMEMLIMIT") == "" {
+		// a soft limit per shard: deep-nesting documents make single parses allocate hundreds of megabytes of
+		// short-lived memory; without a limit the heap of each of 16 shards floats at twice that
+		cmd.Env = append(cmd.Env, "GOMEMLIMIT=1500MiB")
+	}
 	if raceMode {
 		cmd.Env = append(cmd.Env, "GORACE=halt_on_error=1 exitcode=66", "VERIF_SAVE_CURRENT=1")
 	}
